@@ -42,13 +42,14 @@ def prec(t):
     return 5   # chain, in
 
 
-def render(t, full=False) -> str:
+def render(t, full=False, leaf_parens=False) -> str:
+    """full: every compound operand parenthesised; leaf_parens: minimal parentheses plus a redundant pair around every leaf."""
     k = t[0]
     if k == 'leaf':
-        return t[1]
+        return f'({t[1]})' if leaf_parens else t[1]
 
     def sub(c, need):
-        s = render(c, full)
+        s = render(c, full, leaf_parens)
         if c[0] == 'leaf':
             return s
         return f'({s})' if (full or need) else s
@@ -76,7 +77,7 @@ def render(t, full=False) -> str:
         neg, x, items = t[1], t[2], t[3]
         if items == 'XS':
             return f'{sub(x, prec(x) <= 5)} {"not in" if neg else "in"} XS'
-        return f'{sub(x, prec(x) <= 5)} {"not in" if neg else "in"} [{", ".join(render(i, full) for i in items)}]'
+        return f'{sub(x, prec(x) <= 5)} {"not in" if neg else "in"} [{", ".join(render(i, full, leaf_parens) for i in items)}]'
     raise ValueError(k)
 
 
